@@ -164,8 +164,13 @@ var strPool = []string{"", "x", "hello world", "a;b", "say \"hi\"", "ünïcödé
 func (g *gen) lit() string {
 	switch g.r.Intn(4) {
 	case 0:
-		n := []int64{0, 1, 7, 42, 2147483647, 2147483648, 9223372036854775807}[g.r.Intn(7)]
-		g.raw(fmt.Sprint(n))
+		n := []int64{0, 1, 7, 8, 10, 42, 100, 2147483647, 2147483648, 9223372036854775807}[g.r.Intn(10)]
+		txt := fmt.Sprint(n)
+		if g.r.Chance(1, 5) {
+			// decimal literals may carry leading zeros: 010 is ten
+			txt = strings.Repeat("0", g.r.Range(1, 3)) + txt
+		}
+		g.raw(txt)
 		return fmt.Sprintf("(int %d)", n)
 	case 1:
 		s := strPool[g.r.Intn(len(strPool))]
@@ -680,7 +685,7 @@ func runSQL(cfg *config) {
 		"SELECT * FROM t LIMIT 0x1F", "SELECT * FROM t OFFSET 1_000", "SELECT a, b, count(*) FROM t GROUP BY a, b ORDER BY a LIMIT 2",
 		"SELECT a FROM t GROUP BY a, b", "select 1.5", "select .5e+3", "select 0b101 , 0o17, 017, 1e5", "select a!=b, a<=b, a>=b, a! =b, a!b",
 		"\ufeffSELECT 1", "SELECT\x001", "lımıt", "ſelect 1", "SELECT * FROM t lımıt 1", "SELECT 'a\\'b'", "SELECT 'a\\", "SELECT 'a\\x4", "SELECT '\\u12",
-		"SELECT /* unterminated", "SELECT // x", "SELECT 1 /", "SELECT `raw` , `unterminated", "\xff\xfe SELECT", "SELECT '\xff'", "SELECT 1 \xe2\x82",
+		"SELECT /* unterminated", "SELECT // x", "--", "-- x", "SELECT 1 --", "SELECT a FROM t -- all rows", "-- c\nSELECT 1", "SELECT 1 -- c\n, 2", "SELECT 1 - - 2", "SELECT a FROM t WHERE a = 1 --", "SELECT 1 /", "SELECT `raw` , `unterminated", "\xff\xfe SELECT", "SELECT '\xff'", "SELECT 1 \xe2\x82",
 		"show databases", "SHOW DATABASE", "show tables", "INSERT INTO t VALUES (1,'a',true), (2,'b',false)", "INSERT INTO t VALUES (NULL)",
 		"UPDATE t SET a = 1, b = 'x' WHERE c = 2", "DELETE FROM t", "CREATE TABLE (a int)", "CREATE TABLE t (a int,)", "SELECT count(*), avg(a) FROM t",
 		"SELECT avg(*) FROM t", "SELECT count(a FROM t", "SELECT a AS FROM t", "SELECT a b c FROM t", "SELECT * FROM t JOIN", "SELECT * FROM t LEFT JOIN u ON",
@@ -757,7 +762,7 @@ func runSQL(cfg *config) {
 					q := rr.Intn(len(w))
 					w[p], w[q] = w[q], w[p]
 				default:
-					w[p] = []string{"'", "\"", "OR", "AND", "(", ")", ",", "99999999999999999999999", "NULL", ".", "=", "`"}[rr.Intn(12)]
+					w[p] = []string{"'", "\"", "OR", "AND", "(", ")", ",", "99999999999999999999999", "NULL", ".", "=", "`", "--", "/*", "-", "#"}[rr.Intn(16)]
 				}
 				id++
 				sqlTextCase(cfg, id, strings.Join(w, " "), "", "mutated")
@@ -778,6 +783,19 @@ func runSQL(cfg *config) {
 				}
 				id++
 				sqlTextCase(cfg, id, strings.Join(w, " "), "", "repeated")
+			}
+		}
+	}
+	// malformed statements whose offending token is long and ends in a multi-byte character (error
+	// messages quote the token): lengths around every small power of two, quoted and bare
+	for _, n := range []int{7, 8, 15, 16, 31, 32, 33, 63, 64, 65, 127, 128, 255, 256} {
+		for _, last := range []string{"é", "日", "😀", "x"} {
+			tok := strings.Repeat("a", n-1) + last
+			for _, q := range []string{"", "'", "\""} {
+				for _, head := range []string{"", "SELECT * FROM ", "SELECT * FROM t WHERE ", "CREATE ", "CREATE TABLE t (a ", "USE ", "INSERT INTO t VALUES (1) ", "SELECT a FROM t ORDER BY a ", "SHOW "} {
+					id++
+					sqlTextCase(cfg, id, head+q+tok+q, "", "long-token")
+				}
 			}
 		}
 	}
@@ -867,7 +885,7 @@ func runSQL(cfg *config) {
 func sqlLiterals(cfg *config, id *int) {
 	r := cfg.rng
 	ints := []string{"0", "1", "7", "42", "255", "256", "65535", "65536", "2147483647", "2147483648", "4294967295", "4294967296",
-		"9223372036854775807", "007", "00"}
+		"9223372036854775807", "007", "00", "010", "0100", "08", "09", "0089", "000755", "02134"}
 	for _, n := range ints {
 		var v int64
 		fmt.Sscan(n, &v)
